@@ -275,6 +275,21 @@ static void enumerate_bases(Visitor visit) {
           d.bytes = render(b, f, {{(int)i, (int)a}}, A); d.desc = tag + " " + tokdesc((int)i, A, (int)a);
           d.cls = std::string("L|") + fmt_name(f) + "|tok:" + (b.t[i].hdr ? "hdr" : b.t[i].role); d.base = &b; d.fmt = f;
           d.key = tag + "/" + std::to_string(i) + "/" + hexs(A[i][a].bytes); });
+      // two header counts pushed to 2^30 together: each fits, their sum (with whatever is accumulated before) does not
+      visit.family = "hdr+hdr";
+      {
+        std::vector<std::vector<Alt>> H(b.t.size());
+        std::vector<int> hi;
+        for (size_t i = 0; i < b.t.size(); ++i)
+          if (b.t[i].hdr && (b.t[i].k == K_UINT || b.t[i].k == K_INT) && !b.t[i].special) {
+            H[i].push_back(Alt{std::string(b.t[i].sp ? " " : "") + "1073741824", "=2^30"}); hi.push_back((int)i); }
+        if (!visit.skip((long long)hi.size() * ((long long)hi.size() - 1) / 2))
+        for (size_t x = 0; x < hi.size(); ++x) for (size_t y = x + 1; y < hi.size(); ++y)
+          visit(M_PAIR, [&](InputData &d) {
+            d.bytes = render(b, f, {{hi[x], 0}, {hi[y], 0}}, H);
+            d.desc = tag + " " + tokdesc(hi[x], H, 0) + " + " + tokdesc(hi[y], H, 0);
+            d.cls = std::string("L|") + fmt_name(f) + "|hdr+hdr"; d.base = &b; d.fmt = f; });
+      }
       // truncation at every byte offset
       visit.family = "trunc";
       if (!visit.skip((long long)basebytes.size()))
